@@ -30,9 +30,34 @@ def dbd_all():
     return names
 
 
+PORT_ONLY = ['Po210', 'Po218', 'Rn222', 'Ra226', 'Pa231', 'Th230', 'U234', 'U238']
+
+
+def write_literals(d):
+    """decision literals of the nuclides that have no reference model: every numeric literal compared with <= in the
+    nuclide's source file, as a probability (v/100 for percent scales, v itself if already in (0,1))"""
+    import re
+    ld = os.path.join(d, 'lit')
+    os.makedirs(ld, exist_ok=True)
+    for n in PORT_ONLY:
+        src = os.path.join(vlib.REPO, 'bxdecay0', n + '.cc')
+        vals = set()
+        if os.path.exists(src):
+            for m in re.finditer(r'<=?\s*([0-9]+\.?[0-9]*(?:[eE][-+]?[0-9]+)?)\s*\)', open(src).read()):
+                v = float(m.group(1))
+                if 0 < v < 100:
+                    vals.add(v / 100.0)
+                if 0 < v < 1:
+                    vals.add(v)
+        with open(os.path.join(ld, n + '.lit'), 'w') as f:
+            f.write('\n'.join('%.17g' % v for v in sorted(vals)) + '\n')
+    return ld
+
+
 def run_dx(variant, cfg_lines, tag, layers, oracle, api='genbbsub', phases=1, deadline=600, extra=(), jobs=16, timeout=3600):
     exe = vlib.build_harness('checks/dx.cc', variant)
     d = vlib.scratch(tag)
+    extra = list(extra) + ['--litdir', write_literals(d)]
     cfg = os.path.join(d, 'cfg')
     out = os.path.join(d, 'out.jsonl')
     with open(cfg, 'w') as f:
